@@ -2,6 +2,6 @@ package main
 
 func init() {
 	reg(propDef{ID: "C14", Test: "TestC14", Level: "fault_enumeration", Shards: [2]int{8, 12}, CapMin: [2]int{15, 90},
-		Rule: "fault scripts over the virtual transport's dial log: ReconnectTime {5,20,40ms} x MaxReconnectTime {0, R, 2R, 8R} x six Close phases (dialer or socket closed while a transport Dial hangs / while the redial timer is pending / while connected) are enumerated cyclically; per script the PRNG chooses 4-11 outcomes from {refused, connected then dropped by the peer after traffic, connected but rejected by the hook in Attaching, connected and dropped at once}, DialAsynch on/off, PAIR or BUS, yield points on in half. Oracle: every attempt starts at least ReconnectTime after the event that armed its timer (exact lower bound: return of the previous attempt / time taken before the drop / time taken before the hook closed the pipe); attempts keep coming (stuck detector); a message is exchanged on every new connection; at most one attempt starts after Close. Dedicated cases: cap (R=20ms, max=40ms, 14 refusals), no growth with max=0, reset after a successful attach (canary-calibrated upper bounds, parameters chosen so a bug is several times off), synchronous dialer does not retry before its first success and can be retried by the caller. non-trivial = all; distinct = (kind, protocol, R, max, async, script, end)",
+		Rule:   "fault scripts over the virtual transport's dial log: ReconnectTime {5,20,40ms} x MaxReconnectTime {0, R, 2R, 8R} x six Close phases (dialer or socket closed while a transport Dial hangs / while the redial timer is pending / while connected) are enumerated cyclically; per script the PRNG chooses 4-11 outcomes from {refused, connected then dropped by the peer after traffic, connected but rejected by the hook in Attaching, connected and dropped at once}, DialAsynch on/off, PAIR or BUS, yield points on in half. Oracle: every attempt starts at least ReconnectTime after the event that armed its timer (exact lower bound: return of the previous attempt / time taken before the drop / time taken before the hook closed the pipe); attempts keep coming (stuck detector); a message is exchanged on every new connection; at most one attempt starts after Close. Dedicated cases: cap (R=20ms, max=40ms, 14 refusals), no growth with max=0, reset after a successful attach (canary-calibrated upper bounds, parameters chosen so a bug is several times off), synchronous dialer does not retry before its first success and can be retried by the caller. non-trivial = all; distinct = (kind, protocol, R, max, async, script, end)",
 		Assume: commonAssume})
 }
